@@ -101,6 +101,20 @@ def evalStateless (req : List String) : Option (Obs × Option Obs) :=
   | ["consts", t] => do
       let t ← nat? t
       some (← modelConsts t, specConsts t)
+  | ["ntop", t, op, a, b] => do
+      -- an operator impl on a restricted integer has no model; what C04 / C05 demand of it is the specification:
+      -- the numerically faithful result when it is in range, a panic otherwise
+      let (t, a, b) := (← nat? t, ← nat? a, ← nat? b)
+      let T ← ntDef? t
+      let r : Option Nat := match op with
+        | "Add" => some (a + b)
+        | "Sub" => if b ≤ a then some (a - b) else none
+        | "Mul" => some (a * b)
+        | _ => none
+      let cells : Obs := match r with
+        | some v => if v ≤ T.max then [1, (v : Int)] else [0]
+        | none => [0]
+      some (cells, some cells)
   | ["cnconst", i] => do
       let i ← nat? i
       some (← modelCnConst i, specCnConst i)
